@@ -30,7 +30,9 @@ IsInt(x, v) == Match(x, <<v, 1>>)
 Undefined(x) == x.nan \/ (x.inf = 0 /\ x.close /\ x.n = 0)        \* an undefined average is reported as NaN (or 0)
 
 \* the list of (name, ok) checks of the trade metrics, in the order of the property statement
-TradeChecks(m, a, U, start) ==
+\* net profit percentage = 100 * net profit / starting balance; the starting balance is the rational sn / sd
+Npp(a, U, sn, sd) == RatMul(Norm(<<100 * a.net, U>>), Norm(<<sd, sn>>))
+TradeChecks(m, a, U, sn, sd) ==
   << <<"total", IsInt(m.total, a.n)>>,
      <<"total_winning_trades", IsInt(m.total_winning_trades, a.w)>>,
      <<"total_losing_trades", IsInt(m.total_losing_trades, a.l)>>,
@@ -38,7 +40,8 @@ TradeChecks(m, a, U, start) ==
      <<"net_profit", Match(m.net_profit, <<a.net, U>>)>>,
      <<"gross_profit", Match(m.gross_profit, <<a.gp, U>>)>>,
      <<"gross_loss", Match(m.gross_loss, <<a.gl, U>>)>>,
-     <<"net_profit_percentage", ~Inside(<<100 * a.net, U * start>>) \/ Match(m.net_profit_percentage, <<100 * a.net, U * start>>)>>,
+     <<"starting_balance", Match(m.starting_balance, <<sn, sd>>)>>,
+     <<"net_profit_percentage", ~Inside(Npp(a, U, sn, sd)) \/ Match(m.net_profit_percentage, Npp(a, U, sn, sd))>>,
      <<"longs_count", IsInt(m.longs_count, a.longs)>>,
      <<"shorts_count", IsInt(m.shorts_count, a.shorts)>>,
      <<"longs_percentage", Match(m.longs_percentage, <<100 * a.longs, a.n>>)>>,
@@ -53,8 +56,8 @@ TradeChecks(m, a, U, start) ==
      <<"winning_streak", IsInt(m.winning_streak, a.ws)>>,
      <<"losing_streak", IsInt(m.losing_streak, a.ls)>>,
      <<"current_streak", IsInt(m.current_streak, a.cur)>> >>
-SkippedTrade(a, U, start) ==
-  (IF Inside(<<100 * a.net, U * start>>) THEN 0 ELSE 1) + (IF a.w = 0 \/ Inside(<<a.gp, U * a.w>>) THEN 0 ELSE 1)
+SkippedTrade(a, U, sn, sd) ==
+  (IF Inside(Npp(a, U, sn, sd)) THEN 0 ELSE 1) + (IF a.w = 0 \/ Inside(<<a.gp, U * a.w>>) THEN 0 ELSE 1)
   + (IF a.l = 0 \/ Inside(<<-a.gl, U * a.l>>) THEN 0 ELSE 1) + (IF a.w + a.l = 0 \/ Inside(<<a.net, U * (a.w + a.l)>>) THEN 0 ELSE 1)
 
 Times100(r) == <<100 * r[1], r[2]>>
@@ -108,11 +111,11 @@ Step ==
             /\ verdict' = (IF e.exc # "none" THEN <<"raises:" \o e.exc>>
                            ELSE IF agg.n = 0 THEN Keep(<<FirstBad(<< <<"total", IsInt(e.m.total, 0)>>, <<"win_rate", IsInt(e.m.win_rate, 0)>>,
                                                              <<"net_profit_percentage", IsInt(e.m.net_profit_percentage, 0)>> >>)>>)
-                           ELSE Keep(<<FirstBad(TradeChecks(e.m, agg, h.U, h.start))>>)
+                           ELSE Keep(<<FirstBad(TradeChecks(e.m, agg, h.U, h.sn, h.sd))>>)
                                 \o (IF nb >= 2 THEN EquityFails(e.m, h.short) ELSE <<>>)
                                 \* the caller's daily-balance list is an input: the call must leave it as it was
                                 \o (IF e.argsame THEN <<>> ELSE <<"daily-balance-argument-modified">>))
-            /\ skipped' = (IF agg.n = 0 THEN 0 ELSE SkippedTrade(agg, h.U, h.start))
+            /\ skipped' = (IF agg.n = 0 THEN 0 ELSE SkippedTrade(agg, h.U, h.sn, h.sd))
             /\ UNCHANGED <<agg, nb, bals, d1, d2>>
   /\ l' = l + 1 /\ UNCHANGED tid
 Spec == Init /\ [][Step]_vars
